@@ -37,8 +37,12 @@ def run(ctx, rep):
         check_iter(crate, rep, cfg)
         check_exact_len(crate, rep, cfg)
         check_loopvar(crate, rep, cfg)
+        check_load_name(crate, rep, cfg)
         check_in_loop(crate, rep, cfg)
         check_incl(crate, rep, cfg)
+        # if/elif/for skeletons are emitted by the compiler and must reach the VM as emitted: the fusion pass rebuilds no jump (C09.ONLY, shared)
+        from props import c09 as _c09
+        _c09.check_only(crate, crate.one("parsing::instructions::Chunk::optimize"), rep, cfg)
         check_state_fields(crate, rep, cfg)
         check_jump(crate, rep, cfg)
 
@@ -767,6 +771,30 @@ def check_loopvar(crate, rep, cfg):
         rep.add("C03.LOOPVAR", "C03.LOOPVAR:parser:loop.%s" % a, ok, "tera/src/parsing/parser.rs", "the parser rewrites `loop.%s` to `__tera_loop_%s`" % (a, a)
                 + ("" if ok else " — VIOLATED: %s" % sorted(found.get(a) or ["not found"])))
     rep.floor("C03.LOOPVAR", "loop attribute names rewritten by the parser [%s]" % cfg, len(found), 5)
+
+
+def check_load_name(crate, rep, cfg):
+    """C03.SCOPE — a plain variable read IS the scope chain: State::load_name pushes get_value(name) (or the context dump for the magic
+    name) on every path — no shortcut that answers from one scope directly (it would skip the scopes before it: loops, assignments, the
+    includer). The fused path instructions call get_value themselves (C09.FUSED), so the two agree."""
+    b = crate.one("vm::state::State::<'t>::load_name")
+    rep.analysed(b)
+    tr = Tracer(b)
+    pushes = [(bb, t) for bb, t in b.calls() if callee_def(t).endswith("stack::Stack::push")]
+    ok = bool(pushes)
+    why = "no push"
+    for bb, t in pushes:
+        ls = [l for l in tr.operand(t["args"][1]) if l.kind != "cycle"]
+        if not (ls and all(l.kind == "call" and (l.detail[0].endswith("::get_value") or l.detail[0].endswith("::dump_context")) for l in ls)):
+            ok, why = False, "a pushed value comes from %s" % sorted(leaf_str(l) for l in ls)[:2]
+    gv = [(bb, t) for bb, t in b.calls() if callee_def(t).endswith("::get_value")]
+    if ok and gv:
+        al = [l for l in tr.operand(gv[0][1]["args"][1]) if l.kind != "cycle"]
+        ok = bool(al) and all(l.kind == "param" and l.detail == 2 for l in al)
+        why = "get_value is not asked for the name itself"
+    ok = ok and len(gv) == 1
+    rep.add("C03.SCOPE", "C03.SCOPE:load_name:always-the-scope-chain", ok, b.where(pushes[0][0]) if pushes else b.where(0), "State::load_name pushes get_value(name) / dump_context() and "
+            "nothing else" + ("" if ok else " — VIOLATED: " + why))
 
 
 def check_in_loop(crate, rep, cfg):
